@@ -763,6 +763,13 @@ func (c *FnCtx) callFunc(st *State, call *ast.CallExpr, fn *types.Func, recv *Va
 			if base.old == base {
 				env.old = &env
 			}
+			if ac.Interfere != "" {
+				if ac.Interfere == "before" {
+					c.siteOrd(call, key)
+					c.interfere(st, call, c.lockRegions(), false)
+				}
+				continue
+			}
 			if ac.SetVar != "" {
 				gv := c.V.specs.GhostVars[ac.SetVar]
 				if gv == nil {
@@ -797,37 +804,7 @@ func (c *FnCtx) callFunc(st *State, call *ast.CallExpr, fn *types.Func, recv *Va
 	}
 	// shared state that other threads may have changed before the lock was obtained
 	if len(con.HavocRegions) > 0 {
-		ms := newModSet()
-		for hk := range st.heap {
-			for _, rn := range con.HavocRegions {
-				for _, r := range c.V.specs.Regions {
-					if r.Name != rn {
-						continue
-					}
-					base := hk
-					for {
-						if r.has(base) {
-							ms.heap[hk] = true
-							break
-						}
-						i := strings.LastIndex(base, ".")
-						if i < 0 {
-							break
-						}
-						base = base[:i]
-					}
-				}
-			}
-		}
-		c.havoc(st, ms, "interf")
-		// monitor invariants of the function under verification: facts about the lock-protected state that every
-		// critical section is assumed to re-establish before it unlocks
-		if c.con != nil {
-			for _, a := range c.con.AfterLock {
-				env := c.specEnvAt(st, call.Pos())
-				st.assume(c.specBool(env, a.Expr))
-			}
-		}
+		c.interfere(st, call, con.HavocRegions, true)
 	}
 	// modifies
 	if con.ModAll {
@@ -978,7 +955,15 @@ func (c *FnCtx) callFunc(st *State, call *ast.CallExpr, fn *types.Func, recv *Va
 		}
 		st.assume(t)
 	}
-	// callbacks: a function literal passed to a callee whose contract says `callback <param>`
+	if c.con != nil {
+		for _, ac := range c.con.AtCall {
+			if ac.Interfere == "after" && (ac.Callee == shortKey(key) || ac.Callee == key) {
+				if ord := c.siteOrd(call, key); ord != 0 && (ac.Ord == 0 || ac.Ord == ord) {
+					c.interfere(st, call, c.lockRegions(), false)
+				}
+			}
+		}
+	}
 	return results
 }
 
@@ -988,6 +973,71 @@ func (c *FnCtx) callOrd(call *ast.CallExpr) int {
 	}
 	c.callOrds[call] = len(c.callOrds) + 1
 	return c.callOrds[call]
+}
+
+// interfere: other threads run. The named regions of lock-protected state and the ghosts listed by the function under
+// verification (`interference-ghosts`) take arbitrary values that satisfy its `rely` clauses (old() = the values before)
+// and, when the lock has just been obtained, its `after-lock` monitor invariants.
+func (c *FnCtx) interfere(st *State, call *ast.CallExpr, regions []string, locked bool) {
+	pre := st.clone()
+	ms := newModSet()
+	for hk := range st.heap {
+		for _, rn := range regions {
+			for _, r := range c.V.specs.Regions {
+				if r.Name != rn {
+					continue
+				}
+				base := hk
+				for {
+					if r.has(base) {
+						ms.heap[hk] = true
+						break
+					}
+					i := strings.LastIndex(base, ".")
+					if i < 0 {
+						break
+					}
+					base = base[:i]
+				}
+			}
+		}
+	}
+	if c.con != nil {
+		for _, g := range c.con.InterfGhosts {
+			ms.ghost[g] = true
+		}
+	}
+	c.havoc(st, ms, "interf")
+	if c.con == nil {
+		return
+	}
+	evalPos := call.Pos()
+	if p, ok := c.deferEnd[call]; ok {
+		evalPos = p
+	}
+	for _, r := range c.con.Rely {
+		env := c.specEnvAt(st, evalPos)
+		oe := c.specEnvAt(pre, evalPos)
+		oe.old = oe
+		env.old = oe
+		st.assume(c.specBool(env, r.Expr))
+	}
+	if locked {
+		for _, a := range c.con.AfterLock {
+			env := c.specEnvAt(st, evalPos)
+			st.assume(c.specBool(env, a.Expr))
+		}
+	}
+}
+
+// lockRegions: the regions a lock acquisition exposes to interference (from the contract of rwlocker.Lock)
+func (c *FnCtx) lockRegions() []string {
+	for k, con := range c.V.specs.Contracts {
+		if strings.HasSuffix(k, "rwlocker.Lock") && len(con.HavocRegions) > 0 {
+			return con.HavocRegions
+		}
+	}
+	return nil
 }
 
 // siteOrd is the 1-based source-order ordinal of a call among the calls of the same callee in the declaration under
